@@ -317,7 +317,7 @@ pub fn run(ctx: &mut Ctx) {
             Fail::json(format!("op #{i}: {m}"), &v)
         })
     });
-    let cases = ctx.tier.pick(100_000u64, 1_000_000u64);
+    let cases = ctx.tier.pick(400_000u64, 3_000_000u64);
     ctx.pbt("c18-random", cases, 1500, |t, st| {
         let ops = gen_ops(t);
         st.eval();
